@@ -2,6 +2,7 @@
 import re
 
 from vlib import coqrun
+from vlib import c15_asm
 from vlib.c15_evm import CONTEXTS, Differ
 from vlib.c15_gen import gen_utils
 from vlib.c15_ir import (BOPS_ARITH, HALF, PCS, W, coq_of, ir_of, lit_boundary, show_binop_result, show_shape)
@@ -92,13 +93,17 @@ def binop_grid_tie(ctx, differ):
     ctx.corr["binop_grid_rewrites"] = rewrites
     ctx.samples.append({"_optimize_binop": ["sdiv", "x", hex(W - 1)], "model=real": "(sub 0 x)"})
     found = False
+    found_n = 0
     for op, pv, a, b, r, m in mism[:12]:
+        if found_n >= 2:
+            break
         # Search: run this very expression on the EVM with and without the optimiser
         s = ("bin", op, a, b)
         cn = {None: "value", "if": "if", "assert": "assert", "iszero": "iszero", "add": "other"}[pv]
         d = differ.run_shape(s, cn, ctx.rng("search"))
         if d is not None:
             found = True
+            found_n += 1
             ctx.violation("failing-input", "optimised IR behaves differently from unoptimised IR", d,
                           key=f"iropt:{show_shape(s)}:{cn}")
     if mism and not found:
@@ -128,7 +133,7 @@ def evm_grid(ctx, differ):
                     continue
                 d = differ.run_shape(s, cn, rnd, max_inputs=16 if ctx.tier != "thorough" else 40)
                 n += 1
-                if d is not None and found < 5:
+                if d is not None and found < 3:
                     found += 1
                     ctx.violation("failing-input", "optimised IR behaves differently from unoptimised IR", d,
                                   key=f"iropt:{show_shape(s)}:{cn}")
@@ -144,13 +149,50 @@ def evm_grid(ctx, differ):
             s = ("bin", op, ("lit", a), ("lit", b))
             d = differ.run_shape(s, "value", rnd, max_inputs=1)
             nl += 1
-            if d is not None and found < 5:
+            if d is not None and found < 3:
                 found += 1
                 ctx.violation("failing-input", "constant folding differs from run-time evaluation", d,
                               key=f"iropt:{show_shape(s)}:value")
     ctx.corr["evm_grid_programs"] = n
     ctx.corr["evm_fold_programs"] = nl
     return found
+
+
+def peephole_tie(ctx):
+    """exact output equality: real _stack_peephole_opts / _merge_iszero vs the Coq model, on generated
+    stack code containing every pattern and on unoptimised assemblies of the example contracts."""
+    rnd = ctx.rng("asm")
+    k = 300 if ctx.tier != "thorough" else 1500
+    asms = [c15_asm.gen_asm(rnd, rnd.randrange(3, 40)) for _ in range(k)]
+    try:
+        corpus = c15_asm.corpus_assemblies()
+    except Exception:  # noqa
+        corpus = []
+    asms += corpus
+    imports = "From Verif Require Import Base.PyInt C15.Peephole.\nOpen Scope string_scope.\n"
+    exprs = []
+    for a in asms:
+        exprs.append(f"show_asm (stack_peephole {c15_asm.coq_items(a)})")
+        exprs.append(f"show_asm (merge_iszero {c15_asm.coq_items(a)})")
+    outs = coqrun.eval_cases(imports, exprs, "c15asm", shard=(len(exprs) + 2) // 3, timeout=200)
+    changed, bad = 0, None
+    for i, a in enumerate(asms):
+        for j, fn in enumerate(["_stack_peephole_opts", "_merge_iszero"]):
+            r = c15_asm.real_pass(fn, a)
+            m = outs[2 * i + j].strip('"')
+            if r != c15_asm.show(a):
+                changed += 1
+            if r != m and bad is None:
+                bad = {"function": fn, "assembly": c15_asm.show(a), "real": r, "model": m}
+    ctx.corr["peephole_cases"] = 2 * len(asms)
+    ctx.corr["peephole_cases_rewritten"] = changed
+    ctx.corr["peephole_corpus_chunks"] = len(corpus)
+    if bad is not None:
+        # Search: the EVM differential (variant asmopt / iropt+asmopt) has already run on the grid; a
+        # stack-level witness: run both outputs on the model machine is not an implementation input, so
+        # report the broken tie.
+        ctx.violation("correspondence-broken", "Peephole model != real assembly optimiser pass (exact output)", bad)
+    return 2 * len(asms)
 
 
 def run(ctx):
@@ -163,7 +205,8 @@ def run(ctx):
     except Unsupported as e:
         gen_err = str(e)
     b = {"ok": False}
-    files = ["C15/GenUtils.v", "C15/Optimizer.v", "C15/FoldSound.v", "C15/PropsFold.v"]
+    files = ["C15/GenUtils.v", "C15/Optimizer.v", "C15/FoldSound.v", "C15/PropsFold.v", "C15/OptSound.v",
+             "C15/PropsOpt.v", "C15/Peephole.v", "C15/PeepholeSound.v", "C15/PropsPeephole.v"]
     if gen_err is None:
         b = ctx.coq_build(files)
     model_ok = gen_err is None and (COQ / "C15" / "Optimizer.vo").exists() and \
@@ -175,6 +218,9 @@ def run(ctx):
     if model_ok:
         n, f = binop_grid_tie(ctx, differ)
         found += int(f)
+    # ---- peephole tie (the Peephole model does not depend on the generated files)
+    if (COQ / "C15" / "Peephole.vo").exists() and "Peephole.v" not in b.get("file", ""):
+        n += peephole_tie(ctx)
     if gen_err is not None and not found:
         ctx.violation("translator-rejected", "cannot regenerate C15/GenUtils.v: " + gen_err, {"error": gen_err})
     elif gen_err is None and not b["ok"] and not found:
